@@ -18,7 +18,6 @@ RULE = ("von Karman variant: nx 2..40 odd and even, n_columns 1..4, pixel scale 
         "Construction failures with the documented LinAlgError are rejected by construction and counted. Non-trivial: "
         "VK n_columns>=2 and nx>=4; Fried requested != internal size or stencil_length_factor>=2. Distinct = canonical JSON.")
 ASSUMPTIONS = ["pixel (i, j) of the working array sits at (i, j) * pixel_scale, the new row at row -1",
-               "covariances are evaluated in float32 by the library: identities hold to 5e-6 of the variance B(0) times (1 + sum|A| row norm)",
                "tolerance = 8 eps cond(Cov(Z,Z)) (1+|A|_inf) relative to B(0): what a backward-stable explicit inverse in double precision leaves (measured 0.15 in these units); L0/pixel up to 1e5",
                "the private attribute _scrn is assigned to set screen content (only private name used)"]
 
